@@ -507,6 +507,11 @@ fn list_addr(l: &List<u64>) -> usize {
 struct Init {
     a_low: bool,
     config: u8,
+    /// the threads share ONE handle of each list by reference (`Arc<List>`) instead of
+    /// holding a clone each: the reference count of the list is then 1 while typed Rust
+    /// operations run (seeded change C16-8 released the lock early "when nobody else has
+    /// a handle")
+    by_ref: bool,
 }
 
 fn init_lists(init: Init) -> (List<u64>, List<u64>, Model) {
@@ -563,9 +568,9 @@ fn run_program(p: &Program, init: Init, bound: usize, scripts: &Scripts) -> (Pro
             let (a, b, model) = init_lists(init);
             let calls = Arc::new(Mutex::new(Vec::<Call>::new()));
             let mut specs = vec![];
+            let (a, b) = (Arc::new(a), Arc::new(b));
             for (tid, ops) in p.iter().enumerate() {
-                let a = a.clone();
-                let b = b.clone();
+                let (a, b) = if init.by_ref { (a.clone(), b.clone()) } else { (Arc::new((*a).clone()), Arc::new((*b).clone())) };
                 let ops = ops.clone();
                 let calls = calls.clone();
                 let s = scripts.clone();
@@ -871,12 +876,16 @@ impl Check for C16 {
                 matches!(o, Op::ConcatAB | Op::ConcatBA | Op::PushB | Op::ScriptEqAB | Op::ScriptEqBA | Op::RustEqAB | Op::RustEqBA | Op::ScriptConcatAB)
             });
             let locks_both = has_eq || p.iter().flatten().any(|o| matches!(o, Op::ConcatAB | Op::ConcatBA | Op::ScriptConcatAB));
-            let mut inits = vec![Init { a_low: true, config: 0 }];
+            let mut inits = vec![Init { a_low: true, config: 0, by_ref: false }];
             if locks_both {
-                inits.push(Init { a_low: false, config: 0 });
+                inits.push(Init { a_low: false, config: 0, by_ref: false });
             }
             if touches_b {
-                inits.push(Init { a_low: true, config: 1 });
+                inits.push(Init { a_low: true, config: 1, by_ref: false });
+            }
+            // typed Rust operations that hand out or walk elements, on ONE shared handle
+            if p.iter().flatten().any(|o| matches!(o, Op::GetA0 | Op::GetA3 | Op::ToVecA | Op::ContainsA2 | Op::IndexA2 | Op::RustEqAA)) {
+                inits.push(Init { a_low: true, config: 0, by_ref: true });
             }
             for init in inits {
                 let (s1, f1, n1) = run_program(p, init, b, &scripts);
@@ -884,7 +893,7 @@ impl Check for C16 {
                 st.points += s1.points;
                 n_out += n1;
                 for mut f in f1 {
-                    f.detail = json!({"a_has_lower_address": init.a_low, "initial": if init.config == 0 { "a=[1,2,3,4] b=[5]" } else { "a=[7] b=[]" }, "detail": f.detail});
+                    f.detail = json!({"a_has_lower_address": init.a_low, "threads_share_one_handle_by_reference": init.by_ref, "initial": if init.config == 0 { "a=[1,2,3,4] b=[5]" } else { "a=[7] b=[]" }, "detail": f.detail});
                     failures.push(f);
                 }
             }
